@@ -1,6 +1,6 @@
 (* C06 — lossy and lossless deb822 readers agree on content.  Statements only. *)
 From V.model Require Import Base Deb822Lex Deb822Parse Grammar Lossy.
-From V.proofs Require Import LossyP.
+From V.proofs Require Import LossyP AgreeP.
 
 (* Joint acceptance and agreement on every well-formed document: both readers accept
    render d; the lossy reader returns exactly lossy_content d, the lossless one content d, and
@@ -25,12 +25,37 @@ Check C06_lossy_total : forall s : str,
   ((exists p, lossy_paragraph_from_str s = Ok p) \/ (exists e, lossy_paragraph_from_str s = Err e)).
 Print Assumptions C06_lossy_total.
 
-(* The full statement — agreement on EVERY text both readers accept, well-formed or not — is
-   not proved in Coq.  It is decided on every run by the lossy-parse stream (agreement oracle on
-   the implementation, exhaustive over the lexer's character classes to a length bound). *)
-Definition C06_full : Prop :=
-  forall (s : str) (L : ldoc) (t : tree),
-    lossy_from_str s = Ok L -> from_str s = Ok t -> nb_doc L = nb_doc (doc_items t).
+(* The full statement: agreement on EVERY text, well-formed or not.  Whatever the lossy reader
+   accepts the lossless reader accepts too (strictly, without a syntax error), and the two report
+   the same paragraphs, the same field names in the same order and, per field, the same non-blank
+   value lines.  (proofs/LexInvP.v: the token sequences the lexer can produce; proofs/AgreeP.v:
+   the two readers step by step over such a sequence.) *)
+Theorem C06_lossy_implies_lossless : forall (s : str) (L : ldoc),
+  lossy_from_str s = Ok L -> exists t, from_str s = Ok t /\ nb_doc L = nb_doc (doc_items t).
+Proof. exact lossy_accepts_implies_agreement. Qed.
+Check C06_lossy_implies_lossless : forall (s : str) (L : ldoc),
+  lossy_from_str s = Ok L -> exists t, from_str s = Ok t /\ nb_doc L = nb_doc (doc_items t).
+Print Assumptions C06_lossy_implies_lossless.
+
+Theorem C06_full : forall (s : str) (L : ldoc) (t : tree),
+  lossy_from_str s = Ok L -> from_str s = Ok t -> nb_doc L = nb_doc (doc_items t).
+Proof. exact C06_full_holds. Qed.
+Check C06_full : forall (s : str) (L : ldoc) (t : tree),
+  lossy_from_str s = Ok L -> from_str s = Ok t -> nb_doc L = nb_doc (doc_items t).
+Print Assumptions C06_full.
+
+(* The converse fails: the lossless reader accepts texts the lossy one rejects (white space
+   before the colon). *)
+Example C06_ex_lossless_only :
+  (exists t, from_str [65; 32; 58; 32; 98; 10]%N = Ok t) /\ lossy_from_str [65; 32; 58; 32; 98; 10]%N = Err 1%N.
+Proof. split; [eexists|]; vm_compute; reflexivity. Qed.
+
+(* Non-vacuity of the full statement outside the grammar: CR line ends and an indented comment
+   line inside a value are accepted by both readers. *)
+Example C06_ex_outside_grammar :
+  let s := [65; 58; 32; 98; 13; 32; 35; 120; 10; 32; 99]%N in
+  (exists L, lossy_from_str s = Ok L) /\ (exists t, from_str s = Ok t).
+Proof. split; eexists; vm_compute; reflexivity. Qed.
 
 (* Non-vacuity: an empty first line, where the two readers report different raw values. *)
 Example C06_ex_empty_first_line :
